@@ -91,7 +91,7 @@ fn main() {
         rep.finish("replay", false);
         return;
     }
-    let mut rng = args.rng();
+    let rng = args.rng();
     let miri = args.tier == Tier::Miri;
     let cl = fams::classify3();
     rep.extra("tables_on_3_elements", json!({"all": cl.all.len(), "associative": cl.assoc.len(), "monoids": cl.mon.len(), "commutative_monoids": cl.cm.len()}));
@@ -144,7 +144,7 @@ fn main() {
     rep.require(miri || lt.sfp_laws_reported.iter().all(|&k| k >= 20), "get_single_function_properties: some law held in fewer than 20 cases");
     for app in ["BinaryTrust", "Multiplicity", "Cost", "ConfidenceScore", "FuzzyLogic"] {
         for law in ["add-associative", "mul-associative", "left-distributive", "right-distributive", "add-commutative", "zero-is-additive-identity", "one-is-multiplicative-identity", "zero-absorbs-mul"] {
-            rep.require(rep.counter(&format!("app.{app}.{law}")) >= 8, &format!("semiring application {app}: law {law} judged on fewer than 8 tuples"));
+            rep.require(rep.counter(&format!("app.{app}.{law}")) >= 4, &format!("semiring application {app}: law {law} judged on fewer than 4 tuples"));
         }
     }
     let exhaustive = !miri;
